@@ -409,8 +409,13 @@ func (e *Eval) compile(node ast.Node) error {
 		// value, and no clean termination.  Instead we'd walk
 		// off the end of our bytecode array.
 		//
-		if len(e.instructions) == 0 ||
-			code.Opcode(e.instructions[len(e.instructions)-1]) != code.OpReturn {
+		// We look at the last instruction, not the last byte: the
+		// final byte of an operand might be equal to OpReturn.
+		last := code.OpNop
+		for ip := 0; ip < len(e.instructions); ip += code.Length(last) {
+			last = code.Opcode(e.instructions[ip])
+		}
+		if last != code.OpReturn {
 			e.emit(code.OpVoid)
 			e.emit(code.OpReturn)
 		}
